@@ -668,8 +668,9 @@ def run_level(ck, level, exe, backend, script, tag, state):
         if level == "lo" and i < len(script):
             small = case_lines(script, i)
         else:
-            setup = [l for l in script if l.split()[0] not in ("w", "r", "cfg", "reopen")]
-            ops = [l for l in script[: i + 1] if l.split()[0] in ("w", "r", "cfg", "reopen")]
+            # 'reopen' stays (reads are refused in CG_MODE_WRITE; writes work in both modes), so it is part of the setup
+            setup = [l for l in script if l.split()[0] not in ("w", "r", "cfg")]
+            ops = [l for l in script[: i + 1] if l.split()[0] in ("w", "r", "cfg")]
 
             def still(sub, setup=setup):
                 f, _, _, _ = evaluate(level, backend, setup + sub, *run_only(exe, setup + sub, path, backend), None)
